@@ -455,6 +455,24 @@ func c19InitPath(c *Check, a *Anchors) {
 		}
 		return true
 	})
+	// the extension-only classifier must not take the directory itself ("." / "dir/.") for an extension
+	if ext := c.P.Func(PkgFilepathext, "", "IsExtOnly"); ext == nil {
+		c.Errorf("init-path: filepathext.IsExtOnly not found")
+	} else {
+		c.Fn(ext)
+		einfo := ext.Info()
+		excludesDot := false
+		inspectBody(ext.Body, func(nd ast.Node) bool {
+			if be, ok := nd.(*ast.BinaryExpr); ok && (be.Op == token.NEQ || be.Op == token.EQL || be.Op == token.GTR) {
+				if constIs(einfo, be.Y, `"."`) || constIs(einfo, be.X, `"."`) || (be.Op == token.GTR && constIs(einfo, be.Y, "1")) {
+					excludesDot = true
+				}
+			}
+			return true
+		})
+		c.Decide(excludesDot, "init-path", "ext-only-excludes-dot@"+fnDisplay(ext), ext.Decl.Pos(), "\".\" is not an extension-only name",
+			"IsExtOnly accepts \".\" (filepath.Base(\".\") == filepath.Ext(\".\")): `task --init .` writes a file called `Taskfile.` instead of Taskfile.yml in the directory")
+	}
 	c.Decide(keepsDir, "init-path", "ext-only-keeps-dir@"+fnDisplay(run), initCall.Pos(), "Taskfile+ext is joined to filepath.Dir(name)", "for an extension-only argument the directory component of the argument is dropped: `task --init sub/.yml` writes ./Taskfile.yml")
 	// InitTaskfile
 	fb := c.P.Func(PkgTask, "", "InitTaskfile")
